@@ -328,7 +328,8 @@ def concatTrusts (ew tp : Val) : Except Err Val :=
   | _, _ => te
 
 /-- `_verify_dominances_hyperparameters`; `withMono = false` is the joint-monotonicity loop (same
-length / range / integer checks, nothing else). Returns the validated pairs. -/
+length / range / integer checks and, since fix 18dd711, two DIFFERENT dimensions; nothing else).
+Returns the validated pairs. -/
 def domLoop (n : Nat) (mono : Option (List Atom)) (withMono : Bool) :
     List Item → List (Nat × Nat) → Except Err (List (Nat × Nat))
   | [], acc => .ok acc.reverse
@@ -344,6 +345,8 @@ def domLoop (n : Nat) (mono : Option (List Atom)) (withMono : Bool) :
           let d := atomNat a
           let w := atomNat b
           if withMono && (notIncreasing mono d || notIncreasing mono w) then ve
+          -- fix 18dd711: `dominant_dim == weak_dim` / `dim1 == dim2` (a constraint naming one dimension twice)
+          else if d == w then ve
           else if withMono && acc.contains (w, d) then ve
           else domLoop n mono withMono rest ((d, w) :: acc)
       | _ => oe
@@ -1269,5 +1272,329 @@ def CatCfg.natPairs (c : CatCfg) : Tfl.Poset.Pairs := Tfl.Verify.natPairs c.pair
 
 /-- the lengths of the pieces of a piecewise-linear calibrator -/
 def pieceLengths (ks : List Rat) : List Rat := List.zipWith (fun a b => b - a) ks ks.tail
+
+end Tfl.Verify
+
+namespace Tfl.Verify
+open Tfl
+
+/-! ## Constructor arguments that are only STORED by the constructors (C16, audit row 5)
+
+`units`, `num_projection_iterations`, `split_outputs`, `normalization_order` are arguments of the
+layer / constraint constructors that no `verify_hyperparameters` looks at on the current tree: the
+constructor stores them and the first build / projection uses them.  The `…Full` models below take
+them as arguments (so the acceptance tables range over them) and reproduce what the constructor does
+with them — nothing, except for `Linear` (whose `InputSpec` converts `units` to a tensor dimension)
+and `KroneckerFactoredLattice` (which compares them with numbers).  They ARE verified since the fixes
+of F-C16-af (`utils.verify_units`: a positive int), F-C16-ag (`utils.verify_num_projection_iterations`:
+an int), F-C16-ah (4f3f7ef, `normOrderValid`), F-C16-ai (KFL: ints) and F-C16-aj (an empty tuple of
+constraints is "no constraint").  What the LATER uses need is stated as predicates (`posIntVal`,
+`Val.isInt`, `normLate`) and follows from acceptance (Props/C16Full.lean). -/
+
+/-- a Python int (bools are ints: `True` is encoded as `.int 1`) -/
+def Val.isInt : Val → Bool
+  | .a (.int _) => true
+  | _ => false
+
+/-- what every later use of `units` (a tensor dimension that is multiplied, compared with 1 and used
+as a `tf.split` count) needs: a Python int ≥ 1 -/
+def posIntVal : Val → Bool
+  | .a (.int k) => decide (1 ≤ k)
+  | _ => false
+
+/-- the value as an integer (0 for anything that is not a Python int) -/
+def Val.toInt : Val → Int
+  | .a (.int k) => k
+  | _ => 0
+
+/-- `tf.TensorShape([…, v, …])` (through `keras.layers.InputSpec(shape=…)` or `add_weight(shape=…)`):
+`None` is an unknown dimension, a negative int a `ValueError` ("Dimension -1 must be >= 0"), anything
+that is not an int a `TypeError` ("Dimension value must be integer or None") -/
+def dimVal : Val → Except Err Unit
+  | .a .none => .ok ()
+  | .a (.int k) => if k < 0 then ve else .ok ()
+  | _ => te
+
+/-- `normalization_order`: a Python value, or one of the objects the small domains contain that are
+not `Val`s: `np.inf`, `-np.inf`, `'euclidean'`, `'fro'` -/
+inductive NormOrd
+  | val (v : Val) | inf | negInf | euclidean | fro
+  deriving DecidableEq, Repr
+
+/-- `if normalization_order:` (linear_lib.project / assert_constraints) -/
+def NormOrd.truthy : NormOrd → Bool
+  | .val v => v.truthy
+  | _ => true
+
+/-- the FIRST PROJECTION's use of `normalization_order` (linear_lib.project:109-112):
+`if normalization_order: tf.norm(weights, axis=0, ord=normalization_order)`; `tf.norm` of a vector
+(tensorflow/python/ops/linalg_ops.py `norm`) supports `'euclidean'`, `1`, `2`, `np.inf` and any positive
+real number: `if (not np.isreal(ord) or ord <= 0) and ord not in ['euclidean', 1, 2, np.inf]: raise
+ValueError`; a list is compared with 0 (`TypeError`). -/
+def normLate : NormOrd → Except Err Unit
+  | .inf => .ok ()
+  | .euclidean => .ok ()
+  | .negInf => ve
+  | .fro => ve
+  | .val v =>
+    if !v.truthy then .ok ()
+    else match v with
+      | .a x =>
+        match x.num with
+        | some r => if r > 0 then .ok () else ve
+        | Option.none => ve
+      | .s _ _ => te
+
+/-- the check at the head of `linear_lib.verify_hyperparameters` (fix 4f3f7ef):
+```
+if isinstance(normalization_order, str):            valid = normalization_order == "euclidean"
+elif isinstance(normalization_order, (list, tuple)): valid = False
+elif normalization_order:                            valid = isinstance(…, numbers.Real) and … > 0
+else:                                                valid = True
+```
+(`np.inf` / `-np.inf` are floats: `inf > 0`, `-inf > 0` is false) -/
+def normOrderValid : NormOrd → Bool
+  | .inf => true
+  | .euclidean => true
+  | .negInf => false
+  | .fro => false
+  | .val (.s _ _) => false
+  | .val (.a (.str _ _)) => false
+  | .val (.a x) => !x.truthy || (match x.num with | some r => decide (r > 0) | Option.none => false)
+
+/-! ### `PWLCalibration.__init__` with every stored argument -/
+structure RawPwlFull where
+  kp : Val
+  omin : Val
+  omax : Val
+  mono : Val
+  conv : Val
+  cyclic : Val
+  impute : Val
+  missIn : Val
+  missOut : Val
+  kptype : Val
+  clampMin : Val
+  clampMax : Val
+  init : Val
+  units : Val
+  iters : Val
+  split : Val
+def RawPwlFull.base (r : RawPwlFull) : RawPwl :=
+  ⟨r.kp, r.omin, r.omax, r.mono, r.conv, r.cyclic, r.impute, r.missIn, r.missOut, r.kptype, r.clampMin,
+    r.clampMax, r.init⟩
+/-- `PWLCalibration.__init__` (pwl_calibration_layer.py:199-300): `units` must be a positive int,
+`num_projection_iterations` an int (both checked first); `split_outputs` is assigned to an attribute,
+nothing else -/
+def pwlCalibrationFull (r : RawPwlFull) : Except Err PwlCfg :=
+  -- `utils.verify_units(units)`, `utils.verify_num_projection_iterations(…)`, then the library verification
+  if !posIntVal r.units then ve
+  else if !r.iters.isInt then ve
+  else pwlCalibration r.base
+
+/-- `PWLCalibrationConstraints.__init__` with `num_projection_iterations` (an int, checked first) -/
+structure RawPwlCFull where
+  mono : Val
+  conv : Val
+  lengths : Val
+  omin : Val
+  omax : Val
+  iters : Val
+def RawPwlCFull.base (r : RawPwlCFull) : RawPwlC := ⟨r.mono, r.conv, r.lengths, r.omin, r.omax⟩
+def pwlConstraintsFull (r : RawPwlCFull) : Except Err PwlCfg :=
+  if !r.iters.isInt then ve else pwlConstraints r.base
+
+/-! ### `Lattice.__init__` / `LatticeConstraints.__init__` with every stored argument -/
+structure RawLatLayerFull where
+  sizes : Val
+  mono : Val
+  uni : Val
+  ju : JU
+  omin : Val
+  omax : Val
+  interp : Val
+  init : Val
+  units : Val
+  iters : Val
+  /-- the trust / dominance / joint-monotonicity arguments: wrapped and stored by the constructor,
+  verified by `LatticeConstraints` at build -/
+  ew : Val := .a .none
+  tp : Val := .a .none
+  md : Val := .a .none
+  rd : Val := .a .none
+  jm : Val := .a .none
+def RawLatLayerFull.base (r : RawLatLayerFull) : RawLatLayer :=
+  ⟨r.sizes, r.mono, r.uni, r.ju, r.omin, r.omax, r.interp, r.init⟩
+/-- `isinstance(x, tuple) and x and isinstance(x[0], int)` → `[x]` as written in `Lattice.__init__`
+(lattice_layer.py:297-321) since the fix of F-C16-aj: the same normalisation as in
+`LatticeConstraints.__init__` (`wrapSingle`); it cannot raise (before the fix `x[0]` of an EMPTY tuple
+was an `IndexError`) -/
+def wrapSingleLayer (v : Val) : Except Err Val := .ok (wrapSingle v)
+
+/-- `Lattice.__init__` (lattice_layer.py:285-375) in source order: first verification; the five
+constraint arguments wrapped and stored; the bare joint unimodality wrapped; second verification
+(joint unimodalities); `create_kernel_initializer`.  `units` (a positive int) and
+`num_projection_iterations` (an int) are verified first.  Returns the attributes that `build` hands
+to `LatticeConstraints`. -/
+def latticeLayerCore (r : RawLatLayerFull) : Except Err RawLattice := do
+  let _ ← verifyLattice { sizes := r.sizes, mono := r.mono, uni := r.uni, interp := r.interp }
+  let ew ← wrapSingleLayer r.ew
+  let tp ← wrapSingleLayer r.tp
+  let md ← wrapSingleLayer r.md
+  let rd ← wrapSingleLayer r.rd
+  let jm ← wrapSingleLayer r.jm
+  let ju := wrapJU r.ju
+  let _ ← verifyLattice { sizes := r.sizes, mono := r.mono, ju := ju }
+  createKernelInitializer r.base ju
+  pure ⟨r.sizes, r.mono, r.uni, ew, tp, md, rd, jm, ju, r.omin, r.omax⟩
+
+/-- `Lattice.__init__`: `utils.verify_units(units)` and `utils.verify_num_projection_iterations(…)`
+come first (fixes of F-C16-af / F-C16-ag), then `latticeLayerCore` -/
+def latticeLayerFull (r : RawLatLayerFull) : Except Err RawLattice :=
+  if !posIntVal r.units then ve
+  else if !r.iters.isInt then ve
+  else latticeLayerCore r
+
+/-- `Lattice.__init__` followed by `Lattice.build` on an input of the layer's own shape
+(`(batch, len(lattice_sizes))`, `(batch, units, len(lattice_sizes))` for `units > 1` — the shape
+checks of `verify_hyperparameters(lattice_sizes, units, input_shape)` then pass) for a positive int
+`units`: the constructor, then `LatticeConstraints(**stored attributes)`. -/
+def latticeBuild (r : RawLatLayerFull) : Except Err LatCfg := do
+  let s ← latticeLayerFull r
+  latticeConstraints s
+
+structure RawLatticeFull where
+  sizes : Val
+  mono : Val
+  uni : Val
+  ew : Val
+  tp : Val
+  md : Val
+  rd : Val
+  jm : Val
+  ju : JU
+  omin : Val
+  omax : Val
+  iters : Val
+def RawLatticeFull.base (r : RawLatticeFull) : RawLattice :=
+  ⟨r.sizes, r.mono, r.uni, r.ew, r.tp, r.md, r.rd, r.jm, r.ju, r.omin, r.omax⟩
+/-- `LatticeConstraints.__init__` with `num_projection_iterations` (an int, checked first) -/
+def latticeConstraintsFull (r : RawLatticeFull) : Except Err LatCfg :=
+  if !r.iters.isInt then ve else latticeConstraints r.base
+
+/-! ### `Linear.__init__` / `LinearConstraints.__init__` with `units` and `normalization_order` -/
+structure RawLinFull where
+  nid : Val
+  mono : Val
+  imin : Val
+  imax : Val
+  units : Val
+  norm : NormOrd
+def RawLinFull.base (r : RawLinFull) : RawLin := ⟨r.nid, r.mono, r.imin, r.imax⟩
+/-- `units == 1` (`1.0 == 1` and `True == 1` hold in Python) -/
+def unitsIsOne (v : Val) : Bool :=
+  match v with
+  | .a x => x.eqNum 1
+  | _ => false
+/-- `Linear.__init__` (linear_layer.py:150-198): the broadcast of the monotonicities, then
+`verify_hyperparameters(num_input_dims, monotonicities, input_min, input_max, normalization_order)`
+— `normalization_order` FIRST (fix 4f3f7ef), then the checks of `linearLayer` —, then
+`InputSpec(shape=(None, num_input_dims) if units == 1 else (None, units, num_input_dims))` converts
+the entries to tensor dimensions -/
+def linearLayerCore (r : RawLinFull) : Except Err LinCfg := do
+  let c ← (if r.nid.isInt && !normOrderValid r.norm then ve else linearLayer r.base)
+  let _ ← (if unitsIsOne r.units then Except.ok () else dimVal r.units)
+  let _ ← dimVal r.nid
+  pure c
+
+/-- `Linear.__init__`: `utils.verify_units(units)` first (fix of F-C16-af), then `linearLayerCore` -/
+def linearLayerFull (r : RawLinFull) : Except Err LinCfg :=
+  if !posIntVal r.units then ve else linearLayerCore r
+
+structure RawLinCFull where
+  mono : Val
+  md : Val
+  rd : Val
+  imin : Val
+  imax : Val
+  norm : NormOrd
+def RawLinCFull.base (r : RawLinCFull) : RawLinC := ⟨r.mono, r.md, r.rd, r.imin, r.imax⟩
+/-- `LinearConstraints.__init__`: `verify_hyperparameters(…, normalization_order)` checks the order
+first (fix 4f3f7ef), then everything `linearConstraints` checks -/
+def linearConstraintsFull (r : RawLinCFull) : Except Err LinCfg :=
+  if !normOrderValid r.norm then ve else linearConstraints r.base
+
+/-! ### `CategoricalCalibration.__init__` with `units` and `split_outputs` -/
+structure RawCatFull where
+  nb : Val
+  omin : Val
+  omax : Val
+  mono : Val
+  units : Val
+  split : Val
+def RawCatFull.base (r : RawCatFull) : RawCat := ⟨r.nb, r.omin, r.omax, r.mono⟩
+/-- `utils.verify_units(units)` first; `split_outputs` is stored -/
+def categoricalLayerFull (r : RawCatFull) : Except Err CatCfg :=
+  if !posIntVal r.units then ve else categoricalLayer r.base
+
+/-! ### `KroneckerFactoredLattice`: constructor and build (the monotonicities are verified at build,
+against the number of input dimensions) -/
+structure KflCfgM where
+  size : Int
+  units : Int
+  terms : Int
+  lo : Option Rat
+  hi : Option Rat
+  /-- canonical monotonicities (`None`, or one entry in {0, 1} per input dimension) -/
+  mono : Option (List Atom)
+  deriving DecidableEq, Repr
+
+structure RawKflFull where
+  size : Val
+  units : Val
+  terms : Val
+  omin : Val
+  omax : Val
+  mono : Val
+def RawKflFull.base (r : RawKflFull) : RawKfl := ⟨r.size, r.units, r.terms, r.omin, r.omax⟩
+
+/-- `KroneckerFactoredLattice.__init__` since the fix of F-C16-ai: `lattice_sizes`, `units`, `num_terms`
+must not be `None` (constructor) and must be ints (head of `verify_hyperparameters`: `isinstance(value,
+bool) or not isinstance(value, numbers.Integral)` ⇒ `ValueError`), then the comparisons of `kflLayer` -/
+def kflLayerInt (r : RawKfl) : Except Err KflCfg :=
+  if r.size.isNone || r.units.isNone || r.terms.isNone then ve
+  else if !r.size.isInt || !r.units.isInt || !r.terms.isInt then ve
+  else kflLayer r
+
+/-- `monotonicities and len(monotonicities) != dims` -/
+def monoLenBad (mono : Option (List Atom)) (dims : Nat) : Bool :=
+  match mono with
+  | some l => !l.isEmpty && l.length != dims
+  | Option.none => false
+
+/-- `KroneckerFactoredLattice.__init__` followed by `build` on an input of the layer's own shape with
+`dims` input dimensions (`(batch, dims)`, `(batch, units, dims)` for `units > 1`):
+the constructor's `verify_hyperparameters(lattice_sizes, units, num_terms, output_min, output_max)`,
+then `verify_hyperparameters(units, input_shape, monotonicities)`: `units < 1` once more,
+`canonicalize_monotonicities(monotonicities, allow_decreasing=False)` and
+`monotonicities and len(monotonicities) != dims`. -/
+def kflBuild (r : RawKflFull) (dims : Nat) : Except Err KflCfgM := do
+  let c ← kflLayerInt r.base
+  let mono ← canonMonotonicities false r.mono
+  if monoLenBad mono dims then ve
+  else pure ⟨c.size, c.units, c.terms, c.lo, c.hi, mono⟩
+
+/-- one row of the constructor + build table: the constructor arguments and the number of input
+dimensions of the shape handed to `build` -/
+structure RawKflBuild where
+  size : Val
+  units : Val
+  terms : Val
+  omin : Val
+  omax : Val
+  mono : Val
+  dims : Val
+def RawKflBuild.raw (r : RawKflBuild) : RawKflFull := ⟨r.size, r.units, r.terms, r.omin, r.omax, r.mono⟩
+def kflBuildRow (r : RawKflBuild) : Except Err KflCfgM := kflBuild r.raw r.dims.toInt.toNat
 
 end Tfl.Verify
